@@ -26,7 +26,7 @@
 //!   R12 invocations of the crate's own single-rule macro_rules macros (src/lib.rs) are expanded textually
 //!   R10h (`//@loop n iter=it hoist`) `for P in E {` -> `let __itN = verif_hoist(E); let ghost __itsN = __itN@; for P in it: __itN {`
 //!   R14 (with R10h) `V.into_iter().rev()` -> `verif_rev_vec(V)`
-//!   R15 `for P in A..=B` -> `for P in A..verif_incl_end(B)` (requires B + 1 representable)
+//!   R15 (`//@loop n halfopen=1`) `for P in A..=B` -> `for P in A..verif_incl_end(B)` (requires B + 1 representable)
 //!   R13 reference patterns in a for-loop pattern: `&x` -> `__ref_x` + `let x = *__ref_x;` at the start of the body
 //!   R11 `Zip::from(X).and(Y).for_each(|a, b| BODY)` -> `for (a, b) in it: verif_zip2(X, Y) BODY` (closure body becomes the loop body)
 //!   R7 tail expression carrying an `after_call` anchor   -> { let __r = <tail>; <ghost>; __r }
@@ -314,6 +314,8 @@ struct BodyScan {
     // loops whose body ends in an expression statement without `;` (unit-valued tail): ghost code appended at the
     // end of the body needs the `;` first
     loop_tail_nosemi: std::collections::BTreeSet<usize>,
+    // for loops over `A..=B`: loop ordinal -> (range of the `..=` token, range of B)
+    incl_ranges: BTreeMap<usize, (usize, usize, usize, usize)>,
     // calls by name: (enclosing stmt)
     calls: BTreeMap<String, Vec<StmtInfo>>,
     lets: BTreeMap<String, Vec<StmtInfo>>,
@@ -502,15 +504,13 @@ impl<'a, 'ast> Visit<'ast> for Scanner<'a> {
         let (bc, _) = self.src.range(l.body.brace_token.span.close());
         if matches!(l.body.stmts.last(), Some(syn::Stmt::Expr(_, None))) { self.scan.loop_tail_nosemi.insert(self.scan.loops.len()); }
         self.scan.loops.push((bo, bc, s, e));
-        // R15: `for P in A..=B` -> `for P in A..verif_incl_end(B)` (vstd specifies half-open ranges only; the shim
-        // function requires B + 1 not to overflow and returns B + 1)
+        // R15 (opt-in, `//@loop n halfopen=1`): `for P in A..=B` -> `for P in A..verif_incl_end(B)` (vstd specifies the
+        // elements of half-open ranges only; the shim function requires B + 1 to be representable and returns B + 1)
         if let syn::Expr::Range(r) = &*l.expr {
             if let (Some(_), Some(end), syn::RangeLimits::Closed(tok)) = (&r.start, &r.end, &r.limits) {
                 let (ta, tb) = self.src.range(tok.span());
                 let (ea, eb) = self.src.range(end.span());
-                let et = self.src.text[ea..eb].to_string();
-                self.scan.rewrites.push((ta, tb, "..".into(), "R15".into()));
-                self.scan.rewrites.push((ea, eb, format!("verif_incl_end({})", et), "R15".into()));
+                self.scan.incl_ranges.insert(self.scan.loops.len() - 1, (ta, tb, ea, eb));
             }
         }
         // R13: reference patterns of the loop pattern (`for (&x, &w) in ..`) are desugared:
@@ -807,6 +807,13 @@ fn main() {
                             let lp = scan.loops.get(n).unwrap_or_else(|| die(3, format!("lost-anchor: loop {} of {} not found ({} loops)", n, id, scan.loops.len())));
                             edits.push((lp.0, lp.0, seq, format!("\n{}", s.text), json!({"kind": "loop", "label": format!("loop {}", n), "fn": id, "tags": stags})));
                             seq += 1;
+                            if s.kv.contains_key("halfopen") {
+                                let (ta, tb, ea, eb) = scan.incl_ranges.get(&n).unwrap_or_else(|| die(3, format!("lost-anchor: loop {} of {} is not a loop over an inclusive range", n, id)));
+                                edits.push((*ta, *tb, seq, "..".to_string(), json!({"kind": "rewrite", "rule": "R15", "fn": id, "tags": body_tags})));
+                                seq += 1;
+                                edits.push((*ea, *eb, seq, format!("verif_incl_end({})", &src.text[*ea..*eb]), json!({"kind": "rewrite", "rule": "R15", "fn": id, "tags": body_tags})));
+                                seq += 1;
+                            }
                             if let Some(nm) = s.kv.get("iter") {
                                 // R10 (ghost only): name the for loop's ghost iterator: `for P in E` -> `for P in <nm>: E`
                                 let (xo, xe) = scan.for_exprs.get(&n).unwrap_or_else(|| die(3, format!("lost-anchor: loop {} of {} is not a for loop", n, id)));
